@@ -175,6 +175,12 @@ def prepare_fixed_decimal(data, schema):
     bits_req = unscaled_datum.bit_length() + 1
 
     size_in_bits = size * 8
+    if bits_req > size_in_bits:
+        # Never store a truncated (and therefore different) number
+        raise ValueError(
+            f"The decimal needs {bits_req} bits and does not fit into the "
+            + f"fixed size of {size} bytes given by the schema"
+        )
     offset_bits = size_in_bits - bits_req
 
     mask = 2**size_in_bits - 1
